@@ -448,7 +448,7 @@ def body(chk):
     chk.part('find_matching_interface_name', part_fmi, chk, fns, decls)
     chk.part('inferred / named argument names', part_inferred, chk, fns, decls)
     chk.part('spread arguments', part_spread, chk, fns, decls)
-    for n in chk.pick((1, 2), (1, 2, 3)): chk.part(f'new_expr[{n}]', part_new_expr, chk, fns, decls, n)
+    for n in chk.pick((1, 2, 3), (1, 2, 3, 4)): chk.part(f'new_expr[{n}]', part_new_expr, chk, fns, decls, n)
 
 if __name__ == '__main__':
     harness.run_check('C04', body)
